@@ -6,6 +6,7 @@ package main
 // the interface contract (isa.go) prescribes on the array-of-cells view.
 
 import (
+	"os"
 	"fmt"
 	"go/types"
 	"strings"
@@ -19,14 +20,16 @@ type regView struct {
 	vgpr  func(st *State, l, k Term) Term
 	scal  map[string]func(st *State) Term // G_scc, G_vcc, G_exec, G_pc, G_m0
 	wf    func(c *Ctx, st *State) Term    // well-formedness of the concrete store
-	nS    int64
+	nS, nV Term // number of scalar / vector registers in this wavefront's windows
+	bases  func(st *State) [2]Term
+	others func(st0, st1 *State, j Term) (Term, Term) // bytes outside this wavefront's windows are unchanged
 }
 
 func (c *Ctx) fieldOf(st *State, obj Term, structT types.Type, name string) *Val {
 	s := structT.Underlying().(*types.Struct)
 	for i := 0; i < s.NumFields(); i++ {
 		if s.Field(i).Name() == name {
-			return c.load(st, RefSub(obj, i), s.Field(i).Type())
+			return c.defVal("vw."+name, c.load(st, RefSub(obj, i), s.Field(i).Type()))
 		}
 	}
 	panic(unsupported("no field %s in %s", name, structT))
@@ -48,7 +51,7 @@ func (c *Ctx) le32(st *State, base, off Term) Term {
 
 // emuView: emu.Wavefront stores s_k at SRegFile[4k..4k+4) and v_k of lane l at VRegFile[1024l+4k..).
 func (c *Ctx) emuView(wf Term, wfT types.Type) *regView {
-	v := &regView{name: "emu", nS: 102}
+	v := &regView{name: "emu", nS: BVLitI(102, 64), nV: BVLitI(256, 64)}
 	hdr := func(st *State, f string) *Val { return c.fieldOf(st, wf, wfT, f) }
 	v.sgpr = func(st *State, k Term) Term {
 		h := hdr(st, "SRegFile")
@@ -65,9 +68,11 @@ func (c *Ctx) emuView(wf Term, wfT types.Type) *regView {
 		"G_pc":   func(st *State) Term { return hdr(st, "pc").T },
 		"G_m0":   func(st *State) Term { return hdr(st, "M0").T },
 	}
+	v.bases = func(st *State) [2]Term { return [2]Term{hdr(st, "SRegFile").Base, hdr(st, "VRegFile").Base} }
 	v.wf = func(c *Ctx, st *State) Term {
 		s, vv := hdr(st, "SRegFile"), hdr(st, "VRegFile")
 		return And(Eq(s.Len, BVLitI(408, 64)), Eq(vv.Len, BVLitI(65536, 64)), Neq(s.Base, TNull), Neq(vv.Base, TNull),
+			Eq(s.Off, BVLitI(0, 64)), Eq(vv.Off, BVLitI(0, 64)), // whole allocations (NewWavefront), not sub-slices
 			Neq(RefRoot(s.Base), RefRoot(vv.Base)), Neq(RefRoot(s.Base), RefRoot(wf)), Neq(RefRoot(vv.Base), RefRoot(wf)))
 	}
 	return v
@@ -92,6 +97,14 @@ func parseImplements(ct *Contract) (method, view string, ok bool) {
 }
 
 func (f *Frame) implView(ct *Contract) *regView {
+	if f.view != nil {
+		return f.view
+	}
+	f.view = f.implView0(ct)
+	return f.view
+}
+
+func (f *Frame) implView0(ct *Contract) *regView {
 	c := f.c
 	_, vn, _ := parseImplements(ct)
 	recv := f.env[f.fn.Params[0]]
@@ -123,6 +136,10 @@ func implPre(f *Frame, st *State, ct *Contract) {
 		}
 		c.Assume(TTrue, Eq(c.ghost(st, g), fn(st)), "abstraction: "+g)
 	}
+	if method != "ReadOperand" && method != "WriteOperand" {
+		implBytesPre(f, st, ct, method, view)
+		return
+	}
 	// operand / lane preconditions of the interface contract
 	var op, lane Term
 	for _, p := range f.fn.Params {
@@ -137,12 +154,12 @@ func implPre(f *Frame, st *State, ct *Contract) {
 		c.Assume(TTrue, And(BVSle(BVLitI(0, 64), lane), BVSlt(lane, BVLitI(64, 64))), "lane id in 0..63")
 	}
 	if op.S != "" {
-		c.Assume(TTrue, c.operandWF(st, op, method), "operand descriptor well-formed (decoder contract)")
+		c.Assume(TTrue, c.operandWF(st, op, method, view), "operand descriptor well-formed (decoder contract) and inside the wavefront's register windows")
 	}
 }
 
 // operandWF: the descriptor well-formedness the interface contract requires.
-func (c *Ctx) operandWF(st *State, op Term, method string) Term {
+func (c *Ctx) operandWF(st *State, op Term, method string, view *regView) Term {
 	w := c.W
 	d := c.operandDesc(st, op)
 	isReg := Eq(d.ot, BVLitI(w.instsConst("RegOperand"), 64))
@@ -152,9 +169,10 @@ func (c *Ctx) operandWF(st *State, op Term, method string) Term {
 	isV := raw("(isa.isV "+d.rt.S+")", SBool)
 	isS := raw("(isa.isS "+d.rt.S+")", SBool)
 	defd := raw(fmt.Sprintf("(isa.wrdefined %s %s %s)", d.rt.S, d.bs.S, d.rc.S), SBool)
-	last := BVAdd(d.rt, BVLitI(1, 64))
-	inFile := And(Implies(And(isV, Eq(nb, BVLitI(8, 64))), raw("(isa.isV "+last.S+")", SBool)),
-		Implies(And(isS, Eq(nb, BVLitI(8, 64))), raw("(isa.isS "+last.S+")", SBool)))
+	k := func(n string) Term { return BVLitI(w.instsConst(n), 64) }
+	cells := BVUDiv(BVAdd(nb, BVLitI(3, 64)), BVLitI(4, 64))
+	inFile := And(Implies(isV, BVSle(BVAdd(BVSub(d.rt, k("V0")), cells), view.nV)),
+		Implies(isS, BVSle(BVAdd(BVSub(d.rt, k("S0")), cells), view.nS)))
 	regOK := And(Neq(d.reg, TNull), Eq(d.bs, raw("(isa.regbs "+d.rt.S+")", SBV(64))), BVSle(BVLitI(0, 64), d.rc), BVSle(d.rc, BVLitI(16, 64)),
 		Or(Eq(nb, BVLitI(4, 64)), Eq(nb, BVLitI(8, 64)), Eq(nb, BVLitI(1, 64))), defd, inFile)
 	c.W.noteAssumed("register descriptors come from the insts.Regs table (ByteSize is a function of RegType)")
@@ -173,6 +191,10 @@ func implPost(f *Frame, rst *State, ct *Contract, post *Scope) {
 	}
 	c := f.c
 	view := f.implView(ct)
+	if method != "ReadOperand" && method != "WriteOperand" {
+		implBytesPost(f, rst, ct, post, method, view)
+		return
+	}
 	pos := c.W.fset.Position(f.fn.Pos())
 	entry := f.entry
 	var op, lane, value Term
@@ -205,11 +227,11 @@ func implPost(f *Frame, rst *State, ct *Contract, post *Scope) {
 		vIdx := BVSub(d.rt, k("V0"))
 		sg, vg := c.ghost(entry, "G_sgpr"), c.ghost(entry, "G_vgpr")
 		for _, ix := range []Term{sIdx, BVAdd(sIdx, BVLitI(1, 64)), skK} {
-			inS := And(BVSle(BVLitI(0, 64), ix), BVSlt(ix, BVLitI(view.nS, 64)))
+			inS := And(BVSle(BVLitI(0, 64), ix), BVSlt(ix, view.nS))
 			c.Assume(TTrue, Implies(inS, Eq(Select(sg, ix), view.sgpr(entry, ix))), "abstraction: s_k is the little-endian word at its offset")
 		}
 		for _, p := range [][2]Term{{lane, vIdx}, {lane, BVAdd(vIdx, BVLitI(1, 64))}, {skL, skK}} {
-			inV := And(BVSle(BVLitI(0, 64), p[1]), BVSlt(p[1], BVLitI(256, 64)), BVSle(BVLitI(0, 64), p[0]), BVSlt(p[0], BVLitI(64, 64)))
+			inV := And(BVSle(BVLitI(0, 64), p[1]), BVSlt(p[1], view.nV), BVSle(BVLitI(0, 64), p[0]), BVSlt(p[0], BVLitI(64, 64)))
 			c.Assume(TTrue, Implies(inV, Eq(Select(Select(vg, p[0]), p[1]), view.vgpr(entry, p[0], p[1]))), "abstraction: v_k of lane l is the little-endian word at its offset")
 		}
 	}
@@ -229,8 +251,8 @@ func implPost(f *Frame, rst *State, ct *Contract, post *Scope) {
 			c.ghost(model, g)
 		}
 		c.wrOperand(model, op, lane, value)
-		inS := And(BVSle(BVLitI(0, 64), skK), BVSlt(skK, BVLitI(view.nS, 64)))
-		inV := And(BVSle(BVLitI(0, 64), skK), BVSlt(skK, BVLitI(256, 64)), BVSle(BVLitI(0, 64), skL), BVSlt(skL, BVLitI(64, 64)))
+		inS := And(BVSle(BVLitI(0, 64), skK), BVSlt(skK, view.nS))
+		inV := And(BVSle(BVLitI(0, 64), skK), BVSlt(skK, view.nV), BVSle(BVLitI(0, 64), skL), BVSlt(skL, BVLitI(64, 64)))
 		o := c.Oblige("implements", "WriteOperand.sgpr", And(rst.reach, inS), Eq(view.sgpr(rst, skK), Select(model.mem["G_sgpr"], skK)), pos,
 			"after WriteOperand every scalar cell holds what the interface contract prescribes (written cells replaced, all others unchanged)")
 		o.Inputs = inputs
@@ -248,7 +270,20 @@ func implPost(f *Frame, rst *State, ct *Contract, post *Scope) {
 			o.Inputs = inputs
 		}
 		// the store stays well-formed
+		if os.Getenv("GOCV_SPLIT") != "" {
+			for i, cj := range splitAnd(view.wf(c, rst)) {
+				c.Oblige("implements", fmt.Sprintf("WriteOperand.wf.%d", i), rst.reach, cj, pos, cj.S)
+			}
+		}
 		c.Oblige("implements", "WriteOperand.wf", rst.reach, view.wf(c, rst), pos, "register store remains well-formed")
+		if view.others != nil {
+			j := c.Fresh("sk.byte", SBV(64))
+			sOK, vOK := view.others(entry, rst, j)
+			o = c.Oblige("implements", "WriteOperand.otherwf.sfile", rst.reach, sOK, pos, "bytes of the shared scalar file outside this wavefront's window are unchanged")
+			o.Inputs = inputs
+			o = c.Oblige("implements", "WriteOperand.otherwf.vfile", rst.reach, vOK, pos, "bytes of the shared vector file outside this wavefront's lane windows are unchanged")
+			o.Inputs = inputs
+		}
 	default:
 		panic(unsupported("implements %s: no obligations defined", method))
 	}
@@ -267,8 +302,166 @@ func (f *Frame) viewUnchanged(rst *State, view *regView, pos interface{}, inputs
 	o.Inputs = inputs
 }
 
+// timingView: wavefront.Wavefront keeps SCC/VCC/EXEC/M0/PC itself; s_k lives in the CU's scalar
+// file at SRegOffset+4k and v_k of lane l in the SIMD's vector file at VRegOffset+4k+l*ByteSizePerLane.
+// The wiring wf.RegAccessor = &CURegFileAccessor{CU: cu, WF: wf} (cu.ComputeUnit) is an assumption.
 func (c *Ctx) timingView(f *Frame, wf Term, wfT types.Type) *regView {
-	panic(unsupported("timing register view not implemented yet"))
+	w := c.W
+	accT := w.findType("cu.CURegFileAccessor")
+	cuT := w.findType("cu.ComputeUnit")
+	srfT := w.findType("cu.SimpleRegisterFile")
+	if accT == nil || cuT == nil || srfT == nil {
+		panic(unsupported("package amd/timing/cu is not loaded (needed by the timing register view)"))
+	}
+	v := &regView{name: "timing", nS: c.Fresh("nSGPR", SBV(64)), nV: c.Fresh("nVGPR", SBV(64))}
+	fld := func(st *State, obj Term, t types.Type, name string) *Val { return c.fieldOf(st, obj, t, name) }
+	type parts struct {
+		acc, cu, sfile, vfile         Term
+		sst, vst                      *Val
+		soff, voff, bpl, simd         Term
+		accTag, sTag, vTag, accWF     Term
+		vrf                           *Val
+	}
+	get := func(st *State) parts {
+		var p parts
+		ra := fld(st, wf, wfT, "RegAccessor")
+		p.acc, p.accTag = ra.Pay, ra.Tag
+		p.accWF = fld(st, p.acc, accT, "WF").T
+		p.cu = fld(st, p.acc, accT, "CU").T
+		sf := fld(st, p.cu, cuT, "SRegFile")
+		p.sfile, p.sTag = sf.Pay, sf.Tag
+		p.vrf = fld(st, p.cu, cuT, "VRegFile")
+		p.simd = fld(st, wf, wfT, "SIMDID").T
+		ifT := elemOf(p.vrf.Ty)
+		ve := c.defVal("vw.vfile", c.load(st, RefElem(p.vrf.Base, BVAdd(p.vrf.Off, p.simd)), ifT))
+		p.vfile, p.vTag = ve.Pay, ve.Tag
+		p.sst = fld(st, p.sfile, srfT, "storage")
+		p.vst = fld(st, p.vfile, srfT, "storage")
+		p.bpl = fld(st, p.vfile, srfT, "ByteSizePerLane").T
+		p.soff = fld(st, wf, wfT, "SRegOffset").T
+		p.voff = fld(st, wf, wfT, "VRegOffset").T
+		return p
+	}
+	v.sgpr = func(st *State, k Term) Term {
+		p := get(st)
+		return c.le32(st, p.sst.Base, BVAdd(p.sst.Off, BVAdd(p.soff, BVMul(BVLitI(4, 64), k))))
+	}
+	v.vgpr = func(st *State, l, k Term) Term {
+		p := get(st)
+		return c.le32(st, p.vst.Base, BVAdd(p.vst.Off, BVAdd(p.voff, BVAdd(BVMul(BVLitI(4, 64), k), BVMul(l, BVLitI(1024, 64))))))
+	}
+	sc := func(name string) func(st *State) Term {
+		return func(st *State) Term { return fld(st, wf, wfT, name).T }
+	}
+	v.scal = map[string]func(st *State) Term{"G_scc": sc("scc"), "G_vcc": sc("vcc"), "G_exec": sc("exec"), "G_pc": sc("pc"), "G_m0": sc("M0")}
+	v.wf = func(c *Ctx, st *State) Term {
+		p := get(st)
+		z := BVLitI(0, 64)
+		lim := BVLitI(1<<40, 64)
+		srfTag := c.typeTag(types.NewPointer(srfT))
+		return And(
+			Eq(p.accTag, c.typeTag(types.NewPointer(accT))), Neq(p.acc, TNull), Eq(p.accWF, wf), Neq(p.cu, TNull),
+			Eq(p.sTag, srfTag), Neq(p.sfile, TNull), Eq(p.vTag, srfTag), Neq(p.vfile, TNull),
+			BVSle(z, p.simd), BVSlt(p.simd, p.vrf.Len),
+			BVSle(z, v.nS), BVSle(v.nS, BVLitI(102, 64)), BVSle(z, v.nV), BVSle(v.nV, BVLitI(256, 64)),
+			BVSle(z, p.soff), BVSlt(p.soff, lim), BVSle(BVAdd(p.soff, BVMul(BVLitI(4, 64), v.nS)), p.sst.Len),
+			// every lane owns a 1024-byte row of the SIMD's file (cu.Builder: NewSimpleRegisterFile(.., 1024));
+			// a wavefront's VGPRs occupy [VRegOffset, VRegOffset+4*nV) of each row
+			Eq(p.bpl, BVLitI(1024, 64)), BVSle(z, p.voff), BVSle(BVAdd(p.voff, BVMul(BVLitI(4, 64), v.nV)), BVLitI(1024, 64)),
+			BVSle(BVLitI(64*1024, 64), p.vst.Len),
+			Neq(p.sst.Base, TNull), Neq(p.vst.Base, TNull), Neq(p.sst.Base, p.vst.Base),
+			Eq(p.sst.Off, BVLitI(0, 64)), Eq(p.vst.Off, BVLitI(0, 64)), // whole allocations (NewSimpleRegisterFile), not sub-slices
+			// the objects involved are pairwise distinct allocations
+			Neq(RefRoot(p.sst.Base), RefRoot(wf)), Neq(RefRoot(p.vst.Base), RefRoot(wf)))
+	}
+	v.bases = func(st *State) [2]Term { p := get(st); return [2]Term{p.sst.Base, p.vst.Base} }
+	v.others = func(st0, st1 *State, j Term) (Term, Term) {
+		// byte j of the scalar / vector storage lies outside this wavefront's windows => unchanged
+		p := get(st0)
+		u8 := types.Typ[types.Uint8]
+		inS := And(BVSle(p.soff, j), BVSlt(j, BVAdd(p.soff, BVMul(BVLitI(4, 64), v.nS))))
+		sSame := Eq(c.load(st1, RefElem(p.sst.Base, BVAdd(p.sst.Off, j)), u8).T, c.load(st0, RefElem(p.sst.Base, BVAdd(p.sst.Off, j)), u8).T)
+		sOK := Implies(And(BVSle(BVLitI(0, 64), j), BVSlt(j, p.sst.Len), Not(inS)), sSame)
+		// j = voff + l*bpl + b with 0 <= b < 1024 for some lane l in 0..63
+		row := BVURem(j, BVLitI(1024, 64))
+		inV := And(BVUlt(BVUDiv(j, BVLitI(1024, 64)), BVLitI(64, 64)), BVSle(p.voff, row), BVSlt(row, BVAdd(p.voff, BVMul(BVLitI(4, 64), v.nV))))
+		vSame := Eq(c.load(st1, RefElem(p.vst.Base, BVAdd(p.vst.Off, j)), u8).T, c.load(st0, RefElem(p.vst.Base, BVAdd(p.vst.Off, j)), u8).T)
+		vOK := Implies(And(BVSle(BVLitI(0, 64), j), BVSlt(j, p.vst.Len), Not(inV)), vSame)
+		return sOK, vOK
+	}
+	return v
 }
 
 var _ = ssa.NewProgram
+
+// splitAnd splits a top-level conjunction (debug aid).
+func splitAnd(t Term) []Term {
+	if !strings.HasPrefix(t.S, "(and ") {
+		return []Term{t}
+	}
+	body := t.S[5 : len(t.S)-1]
+	var out []Term
+	depth, start := 0, 0
+	for i, ch := range body {
+		switch ch {
+		case '(':
+			depth++
+		case ')':
+			depth--
+		case ' ':
+			if depth == 0 {
+				out = append(out, raw(body[start:i], SBool))
+				start = i + 1
+			}
+		}
+	}
+	out = append(out, raw(body[start:], SBool))
+	return out
+}
+
+// implCases: the register-store proofs are split by the kind of operand.
+func implCases(f *Frame, st *State, ct *Contract) []namedCase {
+	if _, _, ok := parseImplements(ct); !ok {
+		return nil
+	}
+	c := f.c
+	var op Term
+	for _, p := range f.fn.Params {
+		if p.Name() == "operand" {
+			op = f.env[p].T
+		}
+	}
+	if op.S == "" {
+		ad := f.accessDesc(st)
+		if ad.rt.S == "" {
+			return nil
+		}
+		isV := raw("(isa.isV "+ad.rt.S+")", SBool)
+		isS := raw("(isa.isS "+ad.rt.S+")", SBool)
+		return []namedCase{{"sreg", isS}, {"vreg", isV}, {"special", And(Not(isS), Not(isV))}}
+	}
+	d := c.operandDesc(st, op)
+	isReg := Eq(d.ot, BVLitI(c.W.instsConst("RegOperand"), 64))
+	isV := raw("(isa.isV "+d.rt.S+")", SBool)
+	isS := raw("(isa.isS "+d.rt.S+")", SBool)
+	return []namedCase{{"sreg", And(isReg, isS)}, {"vreg", And(isReg, isV)}, {"special", And(isReg, Not(isS), Not(isV))}, {"const", Not(isReg)}}
+}
+
+// implCaseFacts: derived literal facts of a case (proved, then assumed), so
+// that width arithmetic in the code and in the contract becomes linear.
+func implCaseFacts(f *Frame, st *State, ct *Contract, name string) {
+	if _, _, ok := parseImplements(ct); !ok {
+		return
+	}
+	if name != "sreg" && name != "vreg" {
+		return
+	}
+	c := f.c
+	ad := f.accessDesc(st)
+	if ad.bs.S == "" || ad.bs.C != nil {
+		return
+	}
+	fact := Eq(ad.bs, BVLitI(4, 64))
+	c.Oblige("cases", "bytesize4", TTrue, fact, c.W.fset.Position(f.fn.Pos()), "general registers are 4 bytes wide (follows from the register-table assumption)")
+	c.Assume(TTrue, fact, "general registers are 4 bytes wide")
+}
